@@ -17,14 +17,19 @@ PLAN = [  # (grep of subject, properties)
  ("only accepts ASCII digits", ["C17"]), ("trailing newline", ["C17"]), ("accepts '|' as subsecond", ["C17"]), ("deepcopy of a Duration uses the same state", ["C14"]),
  ("Interval's length is exact beyond", ["C11"]), ("reads its values from the anchored match", ["C08"]),
 ]
-out = {}
-sr = os.path.join(V, ".work", "scratch-replays")
+import hashlib
+outp = os.path.join(V, "tools", "harvest_out.json")
+out = json.load(open(outp)) if os.path.exists(outp) else {}
+ONLY = sys.argv[1:]
 for pat, props in PLAN:
     c = subprocess.run(["git", "-C", "/repo", "log", "--format=%h %s", "--grep", pat], capture_output=True, text=True).stdout.strip().split("\n")
     if len(c) != 1 or not c[0]:
         print("AMBIGUOUS", pat, c); continue
     sha, subj = c[0].split(" ", 1)
+    if (sha in out and (out[sha]["examples"] or out[sha].get("note")) and sha not in ONLY) or (ONLY and sha not in ONLY):
+        continue
     wt = f"/tmp/wt/hv.{sha}"
+    sr = os.path.join(V, ".work", "scratch-replays-" + hashlib.sha256(os.path.realpath(wt).encode()).hexdigest()[:8])
     subprocess.run(["git", "-C", "/repo", "worktree", "add", "-q", "--detach", wt, "HEAD"], check=True)
     diff = subprocess.run(["git", "-C", "/repo", "show", sha], capture_output=True, text=True).stdout
     r = subprocess.run(["git", "apply", "-R"], input=diff, text=True, cwd=wt, capture_output=True)
@@ -35,7 +40,11 @@ for pat, props in PLAN:
         for prop in props:
             shutil.rmtree(sr, ignore_errors=True)
             env = dict(os.environ, VERIF_REPO=wt)
-            rr = subprocess.run(["./check", prop, "quick"], cwd=V, env=env, capture_output=True, text=True)
+            try:
+                rr = subprocess.run(["./check", prop, "quick"], cwd=V, env=env, capture_output=True, text=True, timeout=900)
+            except subprocess.TimeoutExpired:
+                rec.setdefault("rc", {})[prop] = "timeout"
+                continue
             files = sorted(glob.glob(os.path.join(sr, f"{prop}-*.json")))
             rec.setdefault("rc", {})[prop] = rr.returncode
             for f in files[:2]:
